@@ -38,17 +38,21 @@ def make_repo(root):
 
 def snapshot(repo, tmpdir):
     return {
-        "head": git(repo, "rev-parse", "HEAD"), "branches": git(repo, "branch", "--list", "--format=%(refname)"),
+        "head": git(repo, "rev-parse", "HEAD"), "branches": git(repo, "branch", "--list", "--format=%(refname) %(objectname)"),
         "status": git(repo, "status", "--porcelain"), "worktrees": len(git(repo, "worktree", "list").strip().splitlines()),
         "tmp": sorted(p.name for p in Path(tmpdir).iterdir()),
     }
 
 
-def scenario(inject_at=None, exc=KeyboardInterrupt, ref="v1", body_exc=None, inspect=False):
+def scenario(inject_at=None, exc=KeyboardInterrupt, ref="v1", body_exc=None, inspect=False, user_branch=False):
     """Run load_git (or the bare context manager) with a fault injected at the inject_at-th subprocess.run call inside _griffe.git."""
     problems = []
     with tempfile.TemporaryDirectory() as root:
         repo = make_repo(root)
+        if user_branch:
+            # the user's own branch happens to carry the name of the temporary one (with a commit of its own): it must survive untouched
+            norm = ref.replace("/", "-")
+            git(repo, "branch", f"griffe-{norm}", "v1")
         private_tmp = Path(root) / "tmp"
         private_tmp.mkdir()
         old_tmp = tempfile.tempdir
@@ -93,7 +97,7 @@ def scenario(inject_at=None, exc=KeyboardInterrupt, ref="v1", body_exc=None, ins
             if before[k] != after[k]:
                 problems.append(f"{k} changed: {before[k]!r} -> {after[k]!r}")
         # the next load of the same ref must still work
-        if not problems:
+        if not problems and not user_branch:
             try:
                 load_git("pkg", ref=ref, repo=str(repo))
             except BaseException as e:  # noqa: BLE001
@@ -111,6 +115,9 @@ def replay_git(w, obligation, expects):
     for ref in ("v1", "feature/new-stuff"):
         oc, pr = scenario(ref=ref, inspect=True)
         problems += [f"[ref={ref} inspected -> {oc}] {p}" for p in pr]
+    for ref in ("main", "feature/new-stuff"):
+        oc, pr = scenario(ref=ref, user_branch=True)
+        problems += [f"[ref={ref}, a branch griffe-{ref.replace('/', '-')} of the user exists -> {oc}] {p}" for p in pr]
     return {"reproduced": bool(problems), "detail": "; ".join(problems[:3]) or "repository, branches, worktrees and temp dir unchanged on every path",
             "signature": "git:" + (problems[0] if problems else "ok")}
 
